@@ -214,6 +214,14 @@ def compare(R, relation, cfg, variant, robust, prm, A, B, case, shift=0):
         R.note_max("max_curve_disagreement_excluded", dis)
         return
     delta = 10 * dis + 1e-9
+    if robust:
+        # the robust curves come from the interpreted run; the compiled kernel's own curve carries the forward error
+        # kappa*eps*max|y| of its final solve on top (lambdas differing in the last ulp, other summation order)
+        tapF = _tap_robust(variant, yB, ndB, prm)
+        rw = np.asarray(tapF.ret[0]["robust_weights"], dtype=float)
+        if (rw > 0).sum() >= 2:
+            okB = np.isfinite(yB) & (yB != ndB)
+            delta += W.cond2(yB.size, rw, float(lB)) * 2.0 ** -53 * max(float(np.max(np.abs(yA[np.isfinite(yA) & (yA != ndA)]))), float(np.max(np.abs(yB[okB]))))
     diff = bA.astype(np.int64) - bB.astype(np.int64)
     frac = np.abs(zA - np.floor(zA) - 0.5)
     bad = (diff != 0) & ~((np.abs(diff) == 1) & (frac <= delta))
